@@ -206,7 +206,7 @@ Proof. unfold rot_defined. apply rg_abs_range. Qed.
 (** two binary32 expressions are the same float when they differ only in the order of the operands of commutative
     operations (every operation is rounded on its own: nothing is re-associated) *)
 Ltac rg_feq :=
-  first [ reflexivity
+  first [ match goal with |- ?a = ?b => constr_eq a b; reflexivity end     (* syntactic identity only: never let the unifier evaluate rnd32 *)
         | match goal with
           | |- rnd32 _ = rnd32 _ => apply f_equal; rg_feq
           | |- Qcplus ?a ?b = Qcplus _ _ =>
@@ -217,10 +217,9 @@ Ltac rg_feq :=
           | |- Qcdiv _ _ = Qcdiv _ _ => apply f_equal2; rg_feq
           end ].
 Ltac rg_float_eq :=
-  first [ reflexivity
-        | unfold gen_rot_c1, gen_rot_c2, rot_x, rot_y, fmulr, faddr, fsubr, fdivr;
-          change (@fmul QcF) with Qcmult; change (@fadd QcF) with Qcplus; change (@fsub QcF) with Qcminus; change (@fdiv QcF) with Qcdiv;
-          rg_feq ].
+  unfold gen_rot_c1, gen_rot_c2, rot_x, rot_y, fmulr, faddr, fsubr, fdivr;
+  change (@fmul QcF) with Qcmult; change (@fadd QcF) with Qcplus; change (@fsub QcF) with Qcminus; change (@fdiv QcF) with Qcdiv;
+  rg_feq.
 
 Section GenIsModel.
   Variables (xs ys it : Z) (P : rot_par) (ax ay : Z -> Qc) (x0 y0 : Z).
